@@ -117,12 +117,19 @@ func Stop() {
 				}
 			}
 		}()
-		globalArchiver.Client.WaitGroup.Wait()
-		stopLocalWatcher <- struct{}{}
-		logger.Debug("WARC writing finished")
-		globalArchiver.Client.Close()
+		// Only one of the two clients exists, depending on whether a proxy is configured
+		if globalArchiver.Client != nil {
+			globalArchiver.Client.WaitGroup.Wait()
+		}
 		if globalArchiver.ClientWithProxy != nil {
 			globalArchiver.ClientWithProxy.WaitGroup.Wait()
+		}
+		stopLocalWatcher <- struct{}{}
+		logger.Debug("WARC writing finished")
+		if globalArchiver.Client != nil {
+			globalArchiver.Client.Close()
+		}
+		if globalArchiver.ClientWithProxy != nil {
 			globalArchiver.ClientWithProxy.Close()
 		}
 
